@@ -1,7 +1,11 @@
 /-
   Driver.Config — line protocol of the `config` sub-harness (C15).
 
-    scenario := opt* "|" path*
+    scenario := ["CF"] opt* ("IN" opt*)* "|" path*
+                 `IN` = "Initialize now": the options before the first `IN` (all of them when there is none) are the
+                 arguments of `app.NewApp().Run(…)`, which initialises; every later batch is applied to the SAME live App
+                 (`opt(app)`) and followed by `app.Initialize()`.  A leading `CF` = the same on a bare
+                 `configure.NewConfigure()` with a ViperBinder (no default ArgsLoader; SL = SetLoaders, AL/CA/SF = AddLoaders)
     opt      := "SL" n loader^n      app.SetConfigLoader(…)
               | "AL" n loader^n      app.AddConfigLoader(…)
               | "CA" n loader^n      option calling s.Configure.AddLoaders(…)
@@ -16,7 +20,8 @@
     node     := "M" n (keyhex node)^n | "L" n node^n | "P"hex (plain scalar) | "Q"hex (quoted string) | "N" (null)
     path     := hex of the dotted path (`-` = the empty path)
 
-    output   := `err` | `panic` | one rendering per path, space separated:
+    output   := phase ("/" phase)*   one per Initialize, ending at the first `err` / `panic`
+    phase    := `err` | `panic` | one rendering per path, space separated:
                 `nil` | `s:<hex of %v text>` | `list[n](e,…)` | `map{k,…}` (hex keys, sorted; for the empty path
                 only keys below which viper.AllKeys finds a non-nil leaf)
 -/
@@ -115,14 +120,18 @@ def pLoaders (fuel : Nat) : Nat → Nat → List Loader → Toks → Option (Lis
     | some (l, r) => (pLoaders fuel k (id+1) (env ++ [l]) r).map fun (ls, id', env', r') => (l :: ls, id', env', r')
     | none => none
 
-def pOpts : Nat → Nat → List Loader → Toks → Option (List Opt × Toks)
+/-- an option, or `IN` (none): Initialize now -/
+abbrev Item := Option Opt
+
+def pOpts : Nat → Nat → List Loader → Toks → Option (List Item × Toks)
   | 0, _, _, _ => none
   | _, _, _, [] => none
   | f+1, id, env, tok :: rest =>
     if tok = "|" then some ([], rest)
+    else if tok = "IN" then (pOpts f id env rest).map fun (os, r') => (none :: os, r')
     else if tok = "SF" then
       match pLoader (f+1) id env rest with
-      | some (l, r) => (pOpts f (id+1) (env ++ [l]) r).map fun (os, r') => (.setConfig l :: os, r')
+      | some (l, r) => (pOpts f (id+1) (env ++ [l]) r).map fun (os, r') => (some (.setConfig l) :: os, r')
       | none => none
     else
       match rest with
@@ -135,7 +144,7 @@ def pOpts : Nat → Nat → List Loader → Toks → Option (List Opt × Toks)
               if tok = "SL" then some (.setLoaders ls) else if tok = "AL" then some (.addLoaders ls)
               else if tok = "CA" then some (.configureAdd ls) else if tok = "SC" then some (.setConfigure ls) else none
             match mk with
-            | some o => (pOpts f id' env' r).map fun (os, r') => (o :: os, r')
+            | some o => (pOpts f id' env' r).map fun (os, r') => (some o :: os, r')
             | none => none
           | none => none
         | none => none
@@ -171,18 +180,34 @@ def query (c : Cfg) (p : Bytes) : String :=
     | none => "nil"
     | some v => render v
 
+/-- the batches between the `IN` marks (k marks → k+1 batches) -/
+def batches : List Item → List (List Opt)
+  | [] => [[]]
+  | none :: rest => [] :: batches rest
+  | some o :: rest =>
+    match batches rest with
+    | b :: bs => (o :: b) :: bs
+    | [] => [[o]]
+
+/-- one Initialize per batch on the same live Configure; the observation ends at the first error / panic -/
+def runBatches (paths : List Bytes) : St → List (List Opt) → List String
+  | _, [] => []
+  | s, b :: rest =>
+    match runPhase s b with
+    | .error true => ["panic"]
+    | .error false => ["err"]
+    | .ok s' => joinWith " " (paths.map (query s'.acc)) :: runBatches paths s' rest
+
 def handle (line : String) : String :=
-  let toks := line.splitOn " "
+  let toks0 := line.splitOn " "
+  let bare := toks0.head? = some "CF"
+  let toks := if bare then toks0.drop 1 else toks0
   let fuel := 2 * toks.length + 4
   match pOpts fuel 1 [] toks with
   | none => "bad-line"
-  | some (opts, pathToks) =>
+  | some (items, pathToks) =>
     match pathToks.mapM fromHex with
     | none => "bad-line"
-    | some paths =>
-      match loadAll (applyOptions opts) with
-      | .error true => "panic"
-      | .error false => "err"
-      | .ok c => joinWith " " (paths.map (query c))
+    | some paths => joinWith " / " (runBatches paths (if bare then St.bare else St.app) (batches items))
 
 end Driver.Config
